@@ -162,3 +162,67 @@ pub fn stub_udp6<K: EnrKey>(this: &enr::Enr<K>) -> Option<u16> {
         None
     }
 }
+
+// ---- wire model of a record (used where the packet / message codecs embed records) ---------------
+/// Records on the wire are opaque to discv5: the `enr` crate encodes, decodes and validates them.
+/// Model: a record occupies RECORD_WIRE_LEN bytes (seq, node id, ghost attributes); decoding fails or
+/// returns the record those bytes denote; encode and decode are inverse.  `DECODE_FAILS` lets a
+/// harness make validation fail for well-formed bytes (bad signature).
+pub const RECORD_WIRE_LEN: usize = 8 + 32 + GHOST_LEN;
+pub static mut DECODE_FAILS: bool = false;
+
+pub fn encode_record(e: &Enr) -> Vec<u8> {
+    let mut v = Vec::with_capacity(RECORD_WIRE_LEN);
+    let s = e.seq().to_be_bytes();
+    let id = e.node_id().raw();
+    let g = e.signature();
+    let mut i = 0;
+    while i < 8 {
+        v.push(s[i]);
+        i += 1;
+    }
+    i = 0;
+    while i < 32 {
+        v.push(id[i]);
+        i += 1;
+    }
+    i = 0;
+    while i < GHOST_LEN {
+        v.push(g[i]);
+        i += 1;
+    }
+    v
+}
+
+pub fn decode_record(buf: &mut &[u8]) -> Result<Enr, alloy_rlp::Error> {
+    if unsafe { DECODE_FAILS } || buf.len() < RECORD_WIRE_LEN {
+        return Err(alloy_rlp::Error::Custom("record model: invalid record"));
+    }
+    let mut s = [0u8; 8];
+    let mut id = [0u8; 32];
+    let mut g = Vec::with_capacity(GHOST_LEN);
+    let mut i = 0;
+    while i < 8 {
+        s[i] = buf[i];
+        i += 1;
+    }
+    i = 0;
+    while i < 32 {
+        id[i] = buf[8 + i];
+        i += 1;
+    }
+    i = 0;
+    while i < GHOST_LEN {
+        g.push(buf[40 + i]);
+        i += 1;
+    }
+    *buf = &buf[RECORD_WIRE_LEN..];
+    let m = EnrMirror {
+        seq: u64::from_be_bytes(s),
+        node_id: NodeId::new(&id),
+        content: BTreeMap::new(),
+        signature: g,
+        phantom: PhantomData,
+    };
+    Ok(unsafe { std::mem::transmute::<EnrMirror, Enr>(m) })
+}
